@@ -42,14 +42,14 @@ RULE = {
 }
 
 REQUIRED = {
-    "C01": {"verbose-logging-on": 500, "disengage-stop": 50, "must_finish-continue": 50, "default-fallback": 50, "now-chain": 50,
+    "C01": {"clock-moves-between-engage-and-execute": 1000, "verbose-logging-on": 500, "disengage-stop": 50, "must_finish-continue": 50, "default-fallback": 50, "now-chain": 50,
             "op-engage-force": 20, "op-engage-initial": 20, "expiry-hop": 50, "in-state-done": 20},
-    "C02": {"verbose-logging-on": 500, "expiry-hop": 100, "expiry-finish-stop": 20, "cycle-restart": 100, "exact-landing-strict": 50,
+    "C02": {"clock-moves-between-engage-and-execute": 1000, "verbose-logging-on": 500, "expiry-hop": 100, "expiry-finish-stop": 20, "cycle-restart": 100, "exact-landing-strict": 50,
             "tie-forked": 20, "long-pause-expiry": 20, "op-nt-write": 20, "three-consecutive-cycles": 10,
             "preexisting-duration": 10},
-    "C03": {"verbose-logging-on": 500, "entry-by-engage": 50, "entry-by-next": 50, "entry-by-expiry": 50, "entry-by-restart": 20,
+    "C03": {"clock-moves-between-engage-and-execute": 1000, "verbose-logging-on": 500, "entry-by-engage": 50, "entry-by-next": 50, "entry-by-expiry": 50, "entry-by-restart": 20,
             "default-fallback": 50, "default-run": 50, "ic-false-after-true": 100, "signature-subsets-seen": 16},
-    "C04": {"verbose-logging-on": 500, "disengage-stop": 50, "expiry-finish-stop": 20, "cycle-restart": 20, "op-done": 20, "op-on_disable": 10,
+    "C04": {"clock-moves-between-engage-and-execute": 1000, "verbose-logging-on": 500, "disengage-stop": 50, "expiry-finish-stop": 20, "cycle-restart": 20, "op-done": 20, "op-on_disable": 10,
             "in-state-done": 20, "machine-start": 100, "done-required-checked": 50, "nt-current_state-checked": 1000},
     "C13": {"driver-station-auto": 500, "verbose-logging-on": 500, "auto-last-timed-state-stay-checked": 2000, "auto-ended-by-done": 20, "auto-ended-by-expiry": 20, "auto-disabled-midrun": 10, "auto-second-period": 20,
             "auto-post-end-iteration": 50, "auto-twin-compared-iteration": 500},
@@ -876,6 +876,9 @@ class Driver:
         timed = [n for n, s in self.eff.items() if s["kind"] == "timed"]
         pid = self.pid
         total = rng.choice([30, 60, 120, 250])
+        late = rng.random() < 0.3
+        if late:
+            self.ev("clock-moves-between-engage-and-execute")
         it = 0
 
         def do(op):
@@ -913,7 +916,10 @@ class Driver:
                         if a >= 0 and a <= 40 * period and (not grid or a % GRID == 0):
                             adv = a
                             self.ev("landing-step")
-                if not do(["adv", adv]):
+                # the calls of this iteration come right before execute() (a component that runs before the machine), or - in
+                # `late` cases - the clock moves between them and execute() (a component that runs AFTER the machine called
+                # engage() in the previous loop: the request is consumed one period later)
+                if not late and not do(["adv", adv]):
                     return ops
                 # ---- pre-ops
                 pre = []
@@ -959,6 +965,8 @@ class Driver:
                 for op in pre:
                     if not do(op):
                         return ops
+                if late and not do(["adv", adv]):
+                    return ops
                 if self.sib is not None and rng.random() < 0.6:
                     for sop in rng.choice([["engage", "execute"], ["execute"], ["engage", "execute"], ["done"], ["engage"]]):
                         if not do(["sib", sop]):
